@@ -113,7 +113,7 @@ func (eng *Engine) fnByName(pkg, name string) *ssa.Function {
 }
 
 var denyInit = []string{
-	modPath + "/level/block", modPath + "/level/biome", modPath + "/data/",
+	modPath + "/level/block", modPath + "/data/",
 	modPath + "/level/item", modPath + "/chat", modPath + "/registry",
 }
 
